@@ -37,6 +37,7 @@ var queryValues = []string{
 	`"str"`, `"a\nb \"q\""`, `""`, `25`, `-16`, `3.259`, `+7`, `1e5`, `0x1F`, `1_000`, `NaN`, `nan`, `Inf`, `-inf`, `+Inf`, `Infinity`, `-Infinity`,
 	`true`, `false`, `null`, `TRUE`, `Null`, `'aGVsbG8sIHdvcmxk'`, `'aGk='`, `plain`, ``, `.5`, `5.`, `1e400`, `0x1p-2`, `-0`, `007`, `1e`, `--1`,
 	`9223372036854775808`, `x"y`, `it's`,
+	`'AA=='`, `'AAA='`, `'AAAA'`, `''`, `'/+8='`, `'aGVsbG8sIHdvcmxkIQ=='`, `"é"`, `"\u00e9\ud83d\ude00"`, `héllo wörld`, `a b`, `a+b`, `100%`, `-`, `+`, `.`, `1.2.3`, `12345678901234567890`, `-9223372036854775808`, `0.1`, `-0.0`, `00.5`,
 }
 
 // values that make the parser report an error (at most one per URL, so that Go
